@@ -16,7 +16,7 @@ for ID in C01 C02 C03 C04 C05 C06 C07 C08 C09 C10 C11 C12 C13 C14 C15 C16 C17 C1
   tools/run_mutants.sh $ID 2>&1 | awk -v id=$ID '
     /^== / { if (name != "") print_row(); name=$2; sub(/:$/,"",name); rc=$0; sub(/.*exit /,"",rc); sub(/ .*/,"",rc); clause="" ; next }
     /^  clause/ { if (clause=="") { clause=$0; sub(/^  clause /,"",clause); clause=substr(clause,1,140); gsub(/\|/,"/",clause) } }
-    function print_row() { exp = (name ~ /^C[0-9][0-9]_/) ? "0" : "1"; printf("| %s | %s | %s | %s | %s |\n", id, name, exp, rc, clause) }
+    function print_row() { expd = (name ~ /^C[0-9][0-9]_/) ? "0" : "1"; printf("| %s | %s | %s | %s | %s |\n", id, name, expd, rc, clause) }
     END { if (name != "") print_row() }' >> $OUT
 done
 echo >> $OUT
